@@ -154,6 +154,19 @@ func c08Scenarios(tier string) []e1lib.Scenario {
 			add(unbound.Cfg{Cap: cp, Sends: s, Recv: s / 2}, false)
 		}
 	}
+	// a backlog far beyond any plausible high-water mark (2^16, 2^17 values and a little more) while nobody receives: the
+	// sender still never waits. One execution each (the default schedule, no deviation): the point is the size
+	huge := []int{1<<16 + 64}
+	if tier == "thorough" {
+		huge = []int{1<<16 + 64, 1<<17 + 64, 1<<20 + 64}
+	}
+	for _, s := range huge {
+		for cp := 0; cp <= 1; cp++ {
+			bound = 0
+			add(unbound.Cfg{Cap: cp, Sends: s, Recv: 0}, true)
+			out[len(out)-1].Horizon = 12 * s
+		}
+	}
 	bound = -1
 	for cp := 0; cp <= 1; cp++ {
 		for _, cn := range []bool{false, true} {
